@@ -185,6 +185,34 @@ func (r *Report) Violate(signature, what string, witness interface{}) {
 		return
 	}
 	r.Violations = append(r.Violations, Violation{Signature: signature, What: what, Witness: witness})
+	if r.sigSeen[signature] == 1 {
+		r.writePartialLocked()
+	}
+}
+
+// writePartialLocked saves what has been observed so far as <unit>.partial.json
+// every time a violation with a new signature is recorded. A unit that later
+// hangs, is starved or dies (a change that breaks the property often also slows
+// the workload down, e.g. by allocating gigabytes) then still hands its
+// witnesses to the driver: a violation that was observed stays observed.
+func (r *Report) writePartialLocked() {
+	dir := os.Getenv("VERIF_OUT")
+	if dir == "" {
+		return
+	}
+	r.WallS = time.Since(r.start).Seconds()
+	data, err := json.MarshalIndent(r, "", " ")
+	if err != nil {
+		return
+	}
+	name := r.Unit
+	if u := os.Getenv("VERIF_UNIT"); u != "" {
+		name = u
+	}
+	tmp := filepath.Join(dir, name+".partial.json.tmp")
+	if err := os.WriteFile(tmp, data, 0o644); err == nil {
+		_ = os.Rename(tmp, filepath.Join(dir, name+".partial.json"))
+	}
 }
 
 func (r *Report) ViolationCount() int64 {
